@@ -566,10 +566,22 @@ def quote_table(ctx, lexpr, pt):
                         "the shorthand %r yields %s instead of Token::Quotation(%r)" % (bytes(seq), sorted(got, key=repr), name.decode()), pt.loc())
     # expansion sites: a 2-element list headed by symbol(name)
     for fp in (P + "next_value", "datum::Datum::quotation"):
-        f = lexpr.fn(fp)
-        if f is None:
+        if lexpr.fn(fp) is None:
             r.anchor_missing(fp)
             continue
+        verdicts = [_expansion_site(f) for f in lexpr.parts_of(fp)]
+        f = lexpr.fn(fp)
+        if "list" in verdicts:
+            r.ok("%s builds Value::list([Value::symbol(name), datum])" % fp, f)
+        elif "cells" in verdicts:
+            r.ok("%s builds cons(Value::symbol(name), cons(datum, ()))" % fp, f)
+        else:
+            r.violation(fp, "quotation-expansion", "%s no longer builds a two-element list headed by the shorthand's symbol" % fp, f.loc())
+
+
+def _expansion_site(f):
+    """Does this function (next_value, a worker it was split into, Datum::quotation) build `(name datum)`?"""
+    if True:
         defs = common.defs_of(f)
         sym_blocks = [bi for bi, t in f.calls() if t["callee"].get("path", "") == "value::Value::symbol"]
         list_calls = [t for bi, t in f.calls() if t["callee"].get("path", "") == "value::Value::list"]
@@ -608,11 +620,10 @@ def quote_table(ctx, lexpr, pt):
                 if tail["k"] == "agg" and tail["rv"].get("vname") == "Null":
                     nested = True
         if okk and list_calls:
-            r.ok("%s builds Value::list([Value::symbol(name), datum])" % fp, f)
-        elif nested:
-            r.ok("%s builds cons(Value::symbol(name), cons(datum, ()))" % fp, f)
-        else:
-            r.violation(fp, "quotation-expansion", "%s no longer builds a two-element list headed by the shorthand's symbol" % fp, f.loc())
+            return "list"
+        if nested:
+            return "cells"
+        return None
 
 
 def num_boundary(ctx, lexpr, pt):
